@@ -100,6 +100,10 @@ POW_FAMILIES = [
     ("addr-label-outp", lambda e: "#bankdef rom { #addr 0, #outp 8 }\n#addr %s\nend:\n" % e),
     ("addr-res0-outp", lambda e: "#bankdef rom { #addr 0, #outp 8 }\n#addr %s\n#res 0\n" % e),
     ("align-label-outp", lambda e: "#bankdef rom { #addr 0, #outp 8 }\n#d8 1\n#align %s\nend:\n" % e),
+    # an address beyond the machine word in a bank that has neither a size nor a place in the output (no other check
+    # would stop it), and two zero-padded values, each below the size cap, joined into one above it
+    ("addr-plain-bank", lambda e: "#bankdef b\n{\n    #addr 0\n}\n#addr %s + 0x8000\nl:\nm:\n" % e),
+    ("concat-padded", lambda e: "x = (0`(%s)) @ (0`(%s))\n" % (e, e)),
     # an asm block evaluated where the cursor is already at the end of the machine word
     ("addr-asm", lambda e: "#ruledef\n{\n    nop => 0x00\n    two => asm { nop \n nop }\n}\n#addr %s\ntwo\n" % e),
     # the same indices where sizes are computed statically (rule productions)
@@ -171,7 +175,7 @@ def run_c19(ck):
     quick = ck.tier == "quick"
     exe = common.build_binary()
     depths = [10, 45, 60, 300, 3000, 30000] if quick else [5, 10, 25, 45, 50, 51, 60, 100, 300, 1000, 3000, 10000, 30000, 100000]
-    ks = [8, 31, 32, 33, 61, 63, 64, 65, 200] if quick else [1, 8, 16, 28, 29, 30, 31, 32, 33, 40, 60, 61, 62, 63, 64, 65, 100, 200, 1000]
+    ks = [8, 29, 31, 32, 33, 61, 63, 64, 65, 200] if quick else [1, 8, 16, 28, 29, 30, 31, 32, 33, 40, 60, 61, 62, 63, 64, 65, 100, 200, 1000]
     digs = [3, 8, 9, 10, 19, 20, 21, 40, 400] if quick else [1, 3, 8, 9, 10, 18, 19, 20, 21, 25, 40, 100, 400, 4000]
     plan = []      # (family, limit, cycle, mag, files, args)
     for name, limit, cycle, mags, gen in FAMILIES:
@@ -203,7 +207,10 @@ def run_c19(ck):
             for suffix, e in (("", "(1 << %d)" % k), ("-below", "((1 << %d) - 1)" % k), ("-below2", "((1 << %d) - 2)" % k)):
                 if k < 2 and suffix == "-below2":
                     continue            # 2^1 - 2 is zero: not a magnitude (and rightly an error in most positions)
-                plan.append((name + suffix, -1, False, k, {"main.asm": gen(e), "data.bin": b"\x01\x02\x03\x04", "data.hex": "0123abcd"}, None))
+                # documented: an address fits the machine word (2^64 and more do not); an integer is at most 8 * 10^8 bits
+                # wide (two of 2^29 bits joined are more)
+                limit = 63 if name == "addr-plain-bank" and suffix == "" else 28 if name == "concat-padded" and suffix == "" else -1
+                plan.append((name + suffix, limit, False, k, {"main.asm": gen(e), "data.bin": b"\x01\x02\x03\x04", "data.hex": "0123abcd"}, None))
     # the group size of the listing formats, a number on the command line: small (fine), at the machine word (an
     # invalid argument), and in between (rows are padded to the group width: the known finding F53)
     for fmt in ("annotated", "tcgame"):
